@@ -125,7 +125,68 @@ def canon_in_place_op(fn: ast.FunctionDef):
     _rename(fn, m)
 
 
+def canon_array_ufunc(fn: ast.FunctionDef):
+    """`out` = the local popped from the keyword dict under "out"; `caster` = the local that is bound to one of the two operand casters"""
+    m: Dict[str, str] = {}
+    a = fn.args
+    if a.vararg:
+        m[a.vararg.arg] = "inputs"
+    if a.kwarg:
+        m[a.kwarg.arg] = "kwargs"
+    _rename(fn, m)
+    m = {}
+    for st in own_nodes(fn):
+        nm = _assigned(st)
+        if nm is None:
+            continue
+        v = st.value
+        if isinstance(v, ast.Call) and norm(v.func) == "kwargs.pop" and v.args and isinstance(v.args[0], ast.Constant) and v.args[0].value == "out":
+            m[nm] = "out"
+        if isinstance(v, ast.Name) and v.id in ("_as_constant_array", "asarray"):
+            m[nm] = "caster"
+    _rename(fn, m)
+
+
+def canon_window_shapes(fn: ast.FunctionDef):
+    """`out_shape` = the local whose value is tested for integrality/positivity or handed to as_strided(shape=...);
+    `in_shape` = the local taken from the trailing axes of the windowed array's shape"""
+    m: Dict[str, str] = {}
+    for n in ast.walk(fn):
+        if isinstance(n, ast.Call) and (dotted(n.func) or "").endswith("as_strided"):
+            for k in n.keywords:
+                if k.arg == "shape" and isinstance(k.value, ast.Name):
+                    m[k.value.id] = "out_shape"
+        if isinstance(n, ast.GeneratorExp) and isinstance(n.elt, ast.BoolOp) and len(n.generators) == 1 and isinstance(n.generators[0].iter, ast.Name) \
+                and any(isinstance(c, ast.Call) and isinstance(c.func, ast.Attribute) and c.func.attr == "is_integer" for c in ast.walk(n.elt)):
+            m[n.generators[0].iter.id] = "out_shape"
+    pos = [a.arg for a in fn.args.posonlyargs + fn.args.args]
+    layer = bool(pos) and pos[0] == "self"
+    for st in own_nodes(fn):
+        nm = _assigned(st)
+        if nm and isinstance(st.value, ast.Call) and (dotted(st.value.func) or "") in ("np.array", "numpy.array", "np.asarray") and st.value.args \
+                and isinstance(st.value.args[0], ast.Subscript) and norm(st.value.args[0].value).endswith(".shape") \
+                and isinstance(st.value.args[0].slice, ast.Slice) and st.value.args[0].slice.lower is not None and st.value.args[0].slice.upper is None:
+            owner = norm(st.value.args[0].value)[: -len(".shape")]
+            if not layer:
+                m[nm] = "in_shape"          # sliding_window_view: trailing axes of the windowed array
+            elif len(pos) > 1 and owner == pos[1]:
+                m[nm] = "x_shape"           # layer: spatial shape of the data operand
+            elif len(pos) > 2 and owner == pos[2]:
+                m[nm] = "w_shape"           # layer: spatial shape of the filter operand
+        elif nm and layer and len(pos) > 2 and isinstance(st.value, ast.Name) and st.value.id == pos[2]:
+            m[nm] = "w_shape"               # pooling: the window is the pool parameter itself
+    _rename(fn, m)
+
+
 def canonicalise(project):
+    for q, fnc in (("mygrad.nnet.layers.utils.sliding_window_view", canon_window_shapes),):
+        f = project.functions.get(q)
+        if f is not None:
+            fnc(f.node)
+    for cq in ("mygrad.nnet.layers.conv.ConvND", "mygrad.nnet.layers.pooling.MaxPoolND"):
+        c = project.classes.get(cq)
+        if c is not None and c.methods.get("__call__") is not None:
+            canon_window_shapes(c.methods["__call__"].node)
     t = project.classes.get("mygrad.tensor_base.Tensor")
     if t is None:
         return
@@ -135,3 +196,6 @@ def canonicalise(project):
     ip = t.methods.get("_in_place_op")
     if ip is not None:
         canon_in_place_op(ip.node)
+    au = t.methods.get("__array_ufunc__")
+    if au is not None:
+        canon_array_ufunc(au.node)
